@@ -252,7 +252,14 @@ func certObject(c *mon.Case, selfSigned bool, signer key, alg x509.SignatureAlgo
 		subj = signer
 		tmpl = genCertTemplate(r, r.Intn(3) > 0, uniq)
 		tmpl.SignatureAlgorithm = alg
-		if !c.Call("CreateCertificate", func() { der, err = smx509.CreateCertificate(libR, tmpl, tmpl, subj.pub, signer.priv) }) {
+		baseSerial := tmpl.SerialNumber
+		var done bool
+		if der, err, done = issue(c, "CreateCertificate", func(a int) ([]byte, error) {
+			if a > 0 && baseSerial != nil {
+				tmpl.SerialNumber = bump(baseSerial, a)
+			}
+			return smx509.CreateCertificate(libR, tmpl, tmpl, subj.pub, signer.priv)
+		}); !done {
 			return
 		}
 	} else {
@@ -270,7 +277,14 @@ func certObject(c *mon.Case, selfSigned bool, signer key, alg x509.SignatureAlgo
 		}
 		tmpl = genCertTemplate(r, r.Intn(4) == 0, uniq)
 		tmpl.SignatureAlgorithm = alg
-		if !c.Call("CreateCertificate", func() { der, err = smx509.CreateCertificate(libR, tmpl, parent, subj.pub, signer.priv) }) {
+		baseSerial := tmpl.SerialNumber
+		var done bool
+		if der, err, done = issue(c, "CreateCertificate", func(a int) ([]byte, error) {
+			if a > 0 && baseSerial != nil {
+				tmpl.SerialNumber = bump(baseSerial, a)
+			}
+			return smx509.CreateCertificate(libR, tmpl, parent, subj.pub, signer.priv)
+		}); !done {
 			return
 		}
 	}
@@ -582,6 +596,38 @@ func checkSigStd(issuer *x509.Certificate, sc *x509.Certificate) error {
 	return issuer.CheckSignature(sc.SignatureAlgorithm, sc.RawTBSCertificate, sc.Signature)
 }
 
+// issue creates an object. In part 0 it re-issues (attempt 1, 2, ...: the creator varies the
+// serial / CRL number / subject so that deterministic schemes give another signature, the
+// randomised ones draw fresh randomness from libR anyway) until the last signature octet
+// has its low three bits clear, so that the unused-bits mutants 1..3 of the sweep are
+// well-formed DER. ok=false: the library panicked (already recorded).
+func issue(c *mon.Case, what string, create func(attempt int) ([]byte, error)) (der []byte, err error, ok bool) {
+	limit := 1
+	if curPart == 0 {
+		limit = 128
+	}
+	for a := 0; a < limit; a++ {
+		if !c.Call(what, func() { der, err = create(a) }) {
+			return nil, nil, false
+		}
+		if err != nil || len(der) == 0 {
+			return der, err, true
+		}
+		if curPart == 0 {
+			c.Event("issue_attempts", 1)
+		}
+		if der[len(der)-1]&7 == 0 {
+			if curPart == 0 {
+				c.Event("objects_with_clear_low_signature_bits", 1)
+			}
+			return der, nil, true
+		}
+	}
+	return der, nil, true
+}
+
+func bump(base *big.Int, a int) *big.Int { return new(big.Int).Add(base, big.NewInt(int64(a))) }
+
 // ---- alteration sweep ----
 
 type sigParts struct {
@@ -596,22 +642,36 @@ type sigParts struct {
 // fidelity: additionally an accepted input must be reproduced in Raw (objects whose
 // parser documents that trailing data is refused).
 func sweep(c *mon.Case, what string, der []byte, orig sigParts, fidelity bool, pv func(m []byte) (*sigParts, error, error)) {
+	// Layout of a created object: SEQUENCE { tbs, signatureAlgorithm, signatureValue BIT STRING }.
+	// The BIT STRING is the last element and is created with 0 unused bits, so its content is
+	// the unused-bits octet followed by the signature octets, up to the end of the DER.
 	tbsOff := bytes.Index(der, orig.tbs)
-	sigOff := bytes.LastIndex(der, orig.sig)
-	region := func(i int) string {
-		switch {
-		case tbsOff < 0 || sigOff < 0:
-			return "?"
-		case i < tbsOff:
-			return "outer-header"
-		case i < tbsOff+len(orig.tbs):
-			return "tbs"
-		case i < sigOff:
-			return "algorithm+bitstring-header"
-		}
-		return "signature"
+	sigOff := len(der) - len(orig.sig)
+	unusedOff := sigOff - 1
+	if tbsOff < 0 || unusedOff <= tbsOff+len(orig.tbs) || !bytes.Equal(der[sigOff:], orig.sig) || der[unusedOff] != 0 {
+		c.Detail("der", der)
+		c.Fail("mismatch", "created %s is not laid out as tbs || algorithm || BIT STRING(0 unused bits, signature): tbs at %d, signature expected at %d, unused-bits octet %#x",
+			what, tbsOff, sigOff, der[max(unusedOff, 0)])
+		return
 	}
-	try := func(m []byte, desc string, rg string) {
+	// strict regions: the signed portion (the whole tbs element) and the content octets of
+	// signatureValue including the unused-bits octet. An alteration there must make parsing or
+	// verification fail, without exception. Elsewhere (outer SEQUENCE header, signatureAlgorithm
+	// element, tag/length octets of signatureValue) the implication below is demanded.
+	region := func(i int) (string, bool) {
+		switch {
+		case i < tbsOff:
+			return "outer-header", false
+		case i < tbsOff+len(orig.tbs):
+			return "tbs", true
+		case i < unusedOff:
+			return "algorithm+bitstring-header", false
+		case i == unusedOff:
+			return "signature-unused-bits-octet", true
+		}
+		return "signature", true
+	}
+	try := func(m []byte, desc string, rg string, strict bool) {
 		var p *sigParts
 		var perr, verr error
 		pi := mon.Try(func() { p, perr, verr = pv(m) })
@@ -629,6 +689,12 @@ func sweep(c *mon.Case, what string, der []byte, orig sigParts, fidelity bool, p
 			c.Event("alter/"+rg+"/signature_refused", 1)
 		default:
 			same := bytes.Equal(p.tbs, orig.tbs) && bytes.Equal(p.sig, orig.sig) && p.alg == orig.alg
+			if strict {
+				c.Detail("altered", m)
+				c.Fail("accept", "%s %s lies in the %s (signed portion / signatureValue content), yet the altered object parses and its signature verifies (parsed tbs same=%v, signature same=%v, alg %v vs %v)",
+					what, desc, rg, bytes.Equal(p.tbs, orig.tbs), bytes.Equal(p.sig, orig.sig), p.alg, orig.alg)
+				return
+			}
 			if !same {
 				c.Detail("altered", m)
 				c.Fail("accept", "%s %s (region %s) parses and its signature verifies although TBS/signature/algorithm differ from the original (tbs same=%v, sig same=%v, alg %v vs %v)",
@@ -653,19 +719,33 @@ func sweep(c *mon.Case, what string, der []byte, orig sigParts, fidelity bool, p
 			}
 			copy(m, der)
 			m[i] = v
-			try(m, fmt.Sprintf("offset %d: %#02x -> %#02x (subst %d)", i, der[i], v, k), region(i))
+			rg, strict := region(i)
+			try(m, fmt.Sprintf("offset %d: %#02x -> %#02x (subst %d)", i, der[i], v, k), rg, strict)
 		}
 	}
 	if curPart == 0 {
+		// the unused-bits octet gets every value 1..7: k unused bits is well-formed DER when the low
+		// k bits of the last signature octet are zero (issue() re-issues until the low 3 bits are)
+		for k := byte(1); k <= 7; k++ {
+			copy(m, der)
+			m[unusedOff] = k
+			wf := "malformed"
+			if der[len(der)-1]&(1<<k-1) == 0 {
+				wf = "well-formed"
+				c.Event("unused_bits_mutants_wellformed", 1)
+			}
+			try(m, fmt.Sprintf("offset %d: unused-bits octet of signatureValue 0 -> %d (%s BIT STRING, last signature octet %#02x)", unusedOff, k, wf, der[len(der)-1]),
+				"signature-unused-bits-octet", true)
+		}
 		for n := 0; n < len(der); n++ {
-			try(der[:n:n], fmt.Sprintf("truncated to %d of %d bytes", n, len(der)), "truncation")
+			try(der[:n:n], fmt.Sprintf("truncated to %d of %d bytes", n, len(der)), "truncation", false)
 		}
 		trail := "trailing"
 		if !fidelity {
 			trail = "trailing(Raw fidelity not judged)"
 		}
-		try(append(append([]byte{}, der...), 0x00), "with one trailing zero byte", trail)
-		try(append(append([]byte{}, der...), der...), "followed by a copy of itself", trail)
+		try(append(append([]byte{}, der...), 0x00), "with one trailing zero byte", trail, false)
+		try(append(append([]byte{}, der...), der...), "followed by a copy of itself", trail, false)
 		c.Event("sweeps(objects)", 1)
 	}
 	c.Event(fmt.Sprintf("swept_offsets(stride %d)", sweepStride), (len(der)-sweepPhase+sweepStride-1)/sweepStride)
@@ -703,7 +783,14 @@ func csrObject(c *mon.Case, signer key, alg x509.SignatureAlgorithm, uniq string
 	c.Class("csr/signer=%v%s/alg=%s/sans=%v/ext=%d", signer.kind, signer.note, algName(alg), len(t.DNSNames)+len(t.EmailAddresses)+len(t.IPAddresses)+len(t.URIs) > 0, len(t.ExtraExtensions))
 	var der []byte
 	var err error
-	if !c.Call("CreateCertificateRequest", func() { der, err = smx509.CreateCertificateRequest(libR, t, signer.priv) }) {
+	baseCN := t.Subject.CommonName
+	var done bool
+	if der, err, done = issue(c, "CreateCertificateRequest", func(a int) ([]byte, error) {
+		if a > 0 {
+			t.Subject.CommonName = fmt.Sprintf("%s r%d", baseCN, a)
+		}
+		return smx509.CreateCertificateRequest(libR, t, signer.priv)
+	}); !done {
 		return
 	}
 	if err != nil {
@@ -841,9 +928,14 @@ func cfcaObject(c *mon.Case, signer key, alg x509.SignatureAlgorithm, uniq strin
 	c.Class("cfca/signer=%v%s/alg=%s/%s%s", signer.kind, signer.note, algName(alg), mode, tmp.note)
 	var der []byte
 	var err error
-	if !c.Call("CreateCFCACertificateRequest", func() {
-		der, err = smx509.CreateCFCACertificateRequest(libR, t, signer.priv, tmpPub, pw)
-	}) {
+	baseCN := t.Subject.CommonName
+	var done bool
+	if der, err, done = issue(c, "CreateCFCACertificateRequest", func(a int) ([]byte, error) {
+		if a > 0 {
+			t.Subject.CommonName = fmt.Sprintf("%s r%d", baseCN, a)
+		}
+		return smx509.CreateCFCACertificateRequest(libR, t, signer.priv, tmpPub, pw)
+	}); !done {
 		return
 	}
 	if err != nil {
@@ -938,7 +1030,14 @@ func crlObject(c *mon.Case, signer key, alg x509.SignatureAlgorithm, uniq string
 	c.Class("crl/signer=%v%s/alg=%s/entries=%d/ext=%d", signer.kind, signer.note, algName(alg), len(t.RevokedCertificateEntries), len(t.ExtraExtensions))
 	var der []byte
 	var err error
-	if !c.Call("CreateRevocationList", func() { der, err = smx509.CreateRevocationList(libR, t, issuer, signer.priv) }) {
+	baseNumber := t.Number
+	var done bool
+	if der, err, done = issue(c, "CreateRevocationList", func(a int) ([]byte, error) {
+		if a > 0 {
+			t.Number = bump(baseNumber, a)
+		}
+		return smx509.CreateRevocationList(libR, t, issuer, signer.priv)
+	}); !done {
 		return
 	}
 	if err != nil {
